@@ -5,7 +5,8 @@
    a missing final newline, fields printed signed or unsigned);
    Load.parse_load_file is the literal model of load.go (run against gmars on
    every run), Compile.compile_warrior the literal model of the assembler. *)
-From GM Require Import Base Text Token Compile Load Sim Meaning Render LoadPrint AsmSpec C06Proof C10Proof C16Proof C09Proof.
+From GM Require Import Base Text Token Compile Load Sim Meaning Render LoadPrint AsmSpec C06Proof C10Proof C16Proof C09Proof
+     Parser C09Compile C09Asm.
 Open Scope N_scope.
 
 (* the property at full strength: both readers return the warrior, under every style *)
@@ -19,10 +20,15 @@ Definition C09_full_statement : Prop :=
     parse_load_file cfg t = LOk code start /\
     exists meta, compile_warrior cfg t = COk code start meta.
 
-(* proved: the load-file reader half, for every style, core size up to 2^63, both dialects, every
-   instruction form, every entry point.  Missing: the assembler half (compile_warrior on the same
-   text), which is decided on every run by the correspondence only (kinds 10 / 32 of the harness:
-   gmars' CompileWarrior and ParseLoadFile on the rendered text against the warrior). *)
+(* proved: (1) the load-file reader half, for every style, core size up to 2^63, both dialects, every
+   instruction form, every entry point; (2) the assembler half for the canonical layout itself
+   (LoadPrint.canon_print: one fully explicit instruction per line, single blanks, LF line ends, ORG first
+   or END last, fields unsigned or signed) - an end-to-end theorem through lexer, symbol scanner, parser and
+   compiler, for every warrior, both dialects, every core size whose fields an operand expression can
+   denote (M <= 2^31).  Missing: the assembler half under every layout style of loadprint (letter case,
+   tabs, CR-LF, comment / blank / metadata lines, missing final newline), decided on every run by the
+   correspondence (kinds 10 / 32 of the harness: gmars' CompileWarrior and ParseLoadFile on the rendered
+   text against the warrior); the lexer part of it is C03_spacing_independent_partial. *)
 Theorem C09_round_trip_partial :
   forall s cfg code start,
     0 < c_size cfg -> c_size cfg <= 2 ^ 63 ->
@@ -48,3 +54,21 @@ Proof.
   - split; [apply Hs|exact Hlt].
 Qed.
 Print Assumptions C09_reader_fixpoint.
+
+(* the assembler half, for the canonical layout: CompileWarrior reads back exactly the warrior *)
+Theorem C09_assembler_reads_canonical_partial :
+  forall cfg sg code start,
+    validate cfg = true -> c_size cfg <= 2147483648 ->
+    Forall (fun i => i_a i < c_size cfg /\ i_b i < c_size cfg) code ->
+    ((c_mode cfg =? 0) = true -> Forall (fun i => legal88 i = true) code) ->
+    (0 <= start < Z.of_nat (length code))%Z -> N.of_nat (length code) <= c_len cfg ->
+    compile_warrior cfg (canon_print (c_mode cfg =? 0) sg (c_size cfg) code start) = COk code start (mkPM [] [] []).
+Proof. intros cfg sg code start Hv Hm Hw Hl Hs Hn. apply asm_canon; try assumption. split; assumption. Qed.
+Print Assumptions C09_assembler_reads_canonical_partial.
+
+(* the premises are satisfiable: a two-line '94 warrior *)
+Example C09_canonical_example :
+  compile_warrior (mkCfg 2 8000 8000 80000 8000 8000 100 100)
+    (canon_print false true 8000 [mkI MOV mI 0 DIRECT 1 DIRECT; mkI DJN mF 7998 B_DECREMENT 3 IMMEDIATE] 1)
+  = COk [mkI MOV mI 0 DIRECT 1 DIRECT; mkI DJN mF 7998 B_DECREMENT 3 IMMEDIATE] 1 (mkPM [] [] []).
+Proof. vm_compute. reflexivity. Qed.
